@@ -67,6 +67,7 @@ type schRow struct {
 }
 
 type rkCase struct {
+	pl *placement // where the []byte / string values lie in memory (placed.go); nil: as built
 	proto   byte
 	gs      bool   // global table spec in the PREPARE answer
 	kind    string // q | b | bx
@@ -280,7 +281,7 @@ func (c *rkCase) run() string {
 			}()
 			vals := make([]interface{}, len(row))
 			for i, v := range row {
-				vals[i] = v.Build()
+				vals[i] = c.pl.value(i+1, v.Build())
 			}
 			if c.kind == "q" {
 				k, ks, tbl, ec := gocql.VerifC09QueryKey(s, rkStmt, vals)
